@@ -216,6 +216,7 @@ class Static:
         self.paths = []
         self.frames = []           # (method_id, call_site tuple, call_path tuple of tuples)
         self.frame_sites = set()   # mapped call sites of analysed frames
+        self.resolved_sites = set()    # mapped (caller, call stmt, callee) that P3 computed as callee ids of a call statement
         self.analysed_methods = set()   # defs with >= 1 analysed frame
         self.entry_points = set()
         self.stdout = ""
@@ -250,6 +251,20 @@ def run_lian(files, enable_p2=False, entry=None):
         return orig(self, frame)
 
     cls.analyze_stmts = rec
+    from lian.core import global_stmt_states as gss
+    gcls = gss.GlobalStmtStates
+    orig_ctms = gcls.compute_target_method_states
+    resolved = set()
+
+    def rec_ctms(self, stmt_id, stmt, status, in_states, callee_method_ids, *a, **k):
+        try:
+            for c in callee_method_ids:
+                resolved.add((int(self.frame.method_id), int(stmt_id), int(c)))
+        except Exception:
+            pass
+        return orig_ctms(self, stmt_id, stmt, status, in_states, callee_method_ids, *a, **k)
+
+    gcls.compute_target_method_states = rec_ctms
     base = tempfile.mkdtemp(prefix="proj-", dir=lianrun.scratch_dir())
     res = None
     try:
@@ -293,6 +308,10 @@ def run_lian(files, enable_p2=False, entry=None):
             m = st.map_site(t)
             if m is not None:
                 st.sites.add(m)
+        for t in resolved:
+            m = st.map_site(t)
+            if m is not None:
+                st.resolved_sites.add(m)
         st.frames = box
         for mid, site, path in box:
             d = st.methods.get(mid)
@@ -303,6 +322,7 @@ def run_lian(files, enable_p2=False, entry=None):
                 st.frame_sites.add(m)
         return st
     finally:
+        gcls.compute_target_method_states = orig_ctms
         if had_own:
             cls.analyze_stmts = orig
         else:
@@ -414,36 +434,45 @@ def evaluate(case, dyn=None, st=None):
     info["not_analysed"] = sorted(not_analysed)
     info["present"] = sum(1 for e in edges if e in st.sites)
 
-    def classify_edge(e, mincyc):
+    BOUNDS = ("cycle-cutoff", "call-site-budget", "context-not-analysed")
+
+    def classify_edge(e, mincyc, resolved):
+        """root-cause class of a discrepancy on edge e.  resolved: the callee was among the callee ids that P3 computed
+        for this call statement (recorded at compute_target_method_states), i.e. name resolution did not fail and the
+        edge was lost by one of the skip rules of compute_target_method_states."""
         k, via = kind_of(kinds, e)
-        if mincyc >= 2:
-            # every demanded occurrence sits behind P3's recursion bound (callee_path.count_cycles() > 1)
-            return ("cycle-cutoff", "-")
+        if resolved:
+            if mincyc >= 2:
+                return ("cycle-cutoff", "-")        # callee_path.count_cycles() > 1
+            return ("call-site-budget", "-")        # call_site_analyze_counter > MAX_ANALYSIS_ROUND_FOR_CALL_SITE
         if case.get("p2") and k in c07_gen.OBJECT_KINDS:
             # under --enable-p2 every call that needs a class or an instance fails alike: one root-cause family
             return ("object-call", "*")
         return (k, via)
 
     p2s = ", --enable-p2" if case.get("p2") else ""
-    tag = "missing-edge-p2" if case.get("p2") else "missing-edge"
+
+    def tag_of(base, k):
+        return base + "-p2" if (case.get("p2") and k not in BOUNDS) else base
+
     by_kind = {}
     for e in sorted(primary_missing):
-        by_kind.setdefault(classify_edge(e, primary_missing[e]), []).append(e)
+        by_kind.setdefault(classify_edge(e, primary_missing[e], e in st.resolved_sites), []).append(e)
     for (k, via), es in sorted(by_kind.items()):
-        out.append(((ID, tag, k, via),
+        out.append(((ID, tag_of("missing-edge", k), k, via),
                     "dynamic call %s (kind %s, via %s%s) is in no stored path of call_paths_p3 (%d such edge(s) in this project)" % (
                         fmt_edge(es[0]), k, via, p2s, len(es))))
     if context_missing:
         es = sorted(context_missing)
-        out.append(((ID, tag, "context-not-analysed", "-"),
+        out.append(((ID, "missing-edge", "context-not-analysed", "-"),
                     "dynamic call %s%s is in no stored path; its caller was analysed, but not under the call path of this "
                     "execution (that path is stored without an analysed frame), %d such edge(s)" % (fmt_edge(es[0]), p2s, len(es))))
-    tag = "callee-not-analysed-p2" if case.get("p2") else "callee-not-analysed"
     by_kind = {}
     for e in sorted(not_analysed):
-        by_kind.setdefault(classify_edge(e, not_analysed[e]), []).append(e)
+        # the call site is stored, so its callee was resolved: only the skip rules can have kept the frame away
+        by_kind.setdefault(classify_edge(e, not_analysed[e], True), []).append(e)
     for (k, via), es in sorted(by_kind.items()):
-        out.append(((ID, tag, k, via),
+        out.append(((ID, tag_of("callee-not-analysed", k), k, via),
                     "call site %s (kind %s, via %s%s) is stored in a path but no P3 frame was analysed under it" % (
                         fmt_edge(es[0]), k, via, p2s)))
     return out, info
